@@ -33,11 +33,33 @@ package slice
 //@   at call RLock#0 label L
 //@   at before call RUnlock#0 label U
 
+// Slice: the answer is the content of the container at the linearization point: same length, same elements (the
+// property's "ordinary slice" model; NOT "the container's slice header", which would just be the return statement).
+// Ownership, the mirror image of [C14.slice.append.owned]: whatever the caller does with ITS result through the
+// language's own slice operations that never touch an index below len(result) - in particular append(result, x) -
+// must not change the container's content and must not be changed by a later Append of the container. So the result
+// is either a private copy or carries no spare capacity of the container's backing array.
 //@ func (*slice).Slice
 //@   tags C14
 //@   requires s != nil
 //@   modifies nothing
-//@   ensures [C14.slice.slice] result == at(L, s.data)
+//@   ensures [C14.slice.slice.len] len(result) == len(at(L, s.data))
+//@   ensures [C14.slice.slice.elems] forall i :: 0 <= i && i < len(result) ==> result[i] == at(L, s.data[i])
+//@   ensures [C14.slice.slice.nospare] fresh(result) || cap(result) == len(result)
 //@   ensures [C14.slice.slice.pure] at(U, s.data) == at(L, s.data)
 //@   at call RLock#0 label L
 //@   at before call RUnlock#0 label U
+
+// Initial state: a new container is the empty slice (the sequential model starts empty), freshly allocated, so no two
+// containers share state.
+//@ func New
+//@   tags C14
+//@   modifies nothing
+//@   ensures [C14.slice.new.empty] len(unbox(result, "*github.com/dapr/kit/concurrency/slice.slice").data) == 0
+//@   ensures [C14.slice.new.fresh] result != nil && fresh(unbox(result, "*github.com/dapr/kit/concurrency/slice.slice"))
+
+//@ func String
+//@   tags C14
+//@   modifies nothing
+//@   ensures [C14.slice.string.empty] len(unbox(result, "*github.com/dapr/kit/concurrency/slice.slice").data) == 0
+//@   ensures [C14.slice.string.fresh] result != nil && fresh(unbox(result, "*github.com/dapr/kit/concurrency/slice.slice"))
